@@ -415,7 +415,19 @@ futures_facade = _Facade(_cf, ThreadPoolExecutor=_Exec, as_completed=_as_complet
 concurrent_facade = _Facade(_concurrent, futures=futures_facade)
 
 
-threading_facade = _Facade(threading, Lock=SchedLock, RLock=(lambda: SchedLock(reentrant=True)))
+class _ToolThread(threading.Thread):
+    """A thread the audited code starts itself.  The gate scheduler owns the pool's workers and the main thread only: such a thread runs
+    unscheduled, and a join with a time limit waits in real time.  The exploration of this execution is then not exhaustive over schedules -
+    recorded in the world so that the evidence says so (a cap, never a silent claim)."""
+
+    def start(self):
+        w = vnet.current()
+        if w is not None:
+            w.tool_threads = getattr(w, 'tool_threads', 0) + 1
+        return super().start()
+
+
+threading_facade = _Facade(threading, Lock=SchedLock, RLock=(lambda: SchedLock(reentrant=True)), Thread=_ToolThread)
 _REAL_LOCK_TYPES = (type(threading.Lock()), type(threading.RLock()))
 
 
